@@ -507,7 +507,9 @@ func (c *Ctx) RuleCompareVerdict() *Result {
 					switch x := a.(type) {
 					case *ssa.Parameter:
 					case *ssa.Call:
-						_ = x
+						if sf := staticFn(&x.Call); sf == nil || !c.P.IsRepoFn(sf) {
+							problems = append(problems, fmt.Sprintf("argument %d of the comparison at %s is transformed by %s before it is compared: the verdict is no longer byte equality of the stored operand and the generated regex", idx, c.P.InstrPos(e.Site), calleeLabel(&x.Call)))
+						}
 					default:
 						problems = append(problems, fmt.Sprintf("argument %d of the comparison at %s is transformed before it is compared (%T)", idx, c.P.InstrPos(e.Site), a))
 					}
